@@ -540,3 +540,49 @@ func (e *Engine) allImplementersArePointers(t types.Type, it *types.Interface) b
 	implPtrCache[k] = res
 	return res
 }
+
+// heapComponent resolves a component named in a reads clause: "T.f", "elems(T)", "ghost(g)", "cell(T)".
+func (e *Engine) heapComponent(fx *FnExec, pkg, text string) (string, Sort, error) {
+	text = strings.TrimSpace(text)
+	switch {
+	case strings.HasPrefix(text, "elems(") && strings.HasSuffix(text, ")"):
+		t, err := e.resolveType(pkg, text[6:len(text)-1])
+		if err != nil {
+			return "", "", err
+		}
+		n, s := fx.elemHeapName(t)
+		return n, s, nil
+	case strings.HasPrefix(text, "cell(") && strings.HasSuffix(text, ")"):
+		t, err := e.resolveType(pkg, text[5:len(text)-1])
+		if err != nil {
+			return "", "", err
+		}
+		n, s := fx.pheapName(t)
+		return n, s, nil
+	case strings.HasPrefix(text, "ghost(") && strings.HasSuffix(text, ")"):
+		sf := e.findSpec(pkg, text[6:len(text)-1])
+		if sf == nil || !sf.Ghost {
+			return "", "", fmt.Errorf("unknown ghost state")
+		}
+		rt, err := e.resolveType(sf.Pkg, sf.Ret)
+		if err != nil {
+			return "", "", err
+		}
+		return "G_" + sf.Name, ArrSort(SInt, e.sortOf(rt)), nil
+	}
+	i := strings.LastIndex(text, ".")
+	if i < 0 {
+		return "", "", fmt.Errorf("expected T.f")
+	}
+	t, err := e.resolveType(pkg, text[:i])
+	if err != nil {
+		return "", "", err
+	}
+	si := e.structOf(t)
+	for k := 0; k < si.st.NumFields(); k++ {
+		if si.st.Field(k).Name() == text[i+1:] {
+			return fieldHeapName(si, k), ArrSort(SInt, e.sortOf(si.st.Field(k).Type())), nil
+		}
+	}
+	return "", "", fmt.Errorf("no field %s", text[i+1:])
+}
